@@ -4,6 +4,7 @@ use xvcommon::{Args, Report};
 
 mod alloc;
 mod e_chunker;
+mod e_deduper;
 mod e_hash;
 mod e_shard;
 mod e_xorb;
@@ -20,6 +21,7 @@ fn main() {
     match engine.as_str() {
         "chunker" => e_chunker::run(&args, &mut rep),
         "hash" => e_hash::run(&args, &mut rep),
+        "deduper" => e_deduper::run(&args, &mut rep),
         "xorb_rt" => e_xorb::run_roundtrip(&args, &mut rep),
         "xorb_val" => e_xorb::run_validate(&args, &mut rep),
         "shard_fmt" => e_shard::run_format(&args, &mut rep),
